@@ -586,7 +586,7 @@ def run(ctx):
         'tree sources: the leaf/internal shape of each extraction is an oracle (theorems hold for every oracle); trace-level tie only for single-leaf trees',
         'destination internals (growth, rebalancing) are abstracted to one fallible find step and one fallible allocation step per insertion; their own safety is C04/C11',
         'ExtraCheckMode::nothing in the harness containers (see NOTES.md: the debug-only extra check turns a throwing functor into an assertion failure)']
-    ctx.regen(['gen_holder.json', 'gen_holder_tree.json', 'gen_stdinsert.json', 'gen_stdinsert_u.json', 'gen_mergeto.json'])
+    ctx.regen(['gen_holder.json', 'gen_holder_tree.json', 'gen_stdinsert.json', 'gen_stdinsert_u.json', 'gen_stdinsert_n.json', 'gen_mergeto.json', 'gen_treeswap.json', 'gen_extracheck_t.json', 'gen_extracheck_h.json'])
     ctx.prove()
     exes = build_all(ctx)
     harness = exes.get('harness')
